@@ -30,13 +30,14 @@ func init() {
 		Families: []family{
 			{Name: "ingest-waiting-for-writer", Fn: scnC13Ingest("open"), Weight: 1},
 			{Name: "ingest-idle-read", Fn: scnC13Ingest("read"), Weight: 1},
+			{Name: "ingest-after-writer-left", Fn: scnC13Ingest("eof"), Weight: 1},
 			{Name: "audit-ingest-backpressure", Fn: scnC13Backpressure, Weight: 2},
 			{Name: "sshd-handoff-blocked", Fn: scnC13Handoff, Weight: 1},
 			{Name: "auditd-read", Fn: scnC13Read, Weight: 2},
 			{Name: "l3-daemon-cancel", Fn: scnC13L3, Weight: 1},
 		},
-		Rule: "cancellation injected into each blocking state of each worker (ingester waiting for a writer; blocked reading an idle pipe; audit ingester handing a record downstream " +
-			"with a stopped consumer and buffer capacities {1,2,8,64,10000}, buffer empty or full; sshd pipeline handing a login to an unready correlator; audit processor idle / with lines queued / mid-push), " +
+		Rule: "cancellation injected into each blocking state of each worker (ingester waiting for a writer; blocked reading an idle pipe; after the last writer closed the pipe (whatever the ingester does at the end of the stream); audit ingester handing a record downstream " +
+			"with a stopped consumer and buffer capacities {1,2,8,64,10000}, buffer empty or full; sshd pipeline handing a login to an unready correlator; audit processor idle / with lines queued / mid-push / during a maintenance flush / with a producer outside the cancelled group that keeps its queue topped up), " +
 			"either in the constructively established state or at a tape-chosen scheduler step; plus the assembled daemon cancelled at a taped step under traffic; then a fair schedule with the clock advancing at quiescence: the worker must return within 1 simulated second and 20000 steps " +
 			"and stay silent for 10 further simulated seconds while input remains available; non-trivial = the intended blocking state was reached (probe) before cancel; distinct = distinct (state, capacity, fill, cancel step, schedule hash)",
 		Quick: 6400, Thorough: 200000,
@@ -131,7 +132,7 @@ func scnC13Ingest(state string) scenarioFn {
 		})
 		pre := 0
 		var w *simrt.PipeWriter
-		if state == "read" {
+		if state == "read" || state == "eof" {
 			w = pipe.OpenWriter()
 			pre = t.Choose(4, "prelines")
 			for i := 0; i < pre; i++ {
@@ -146,13 +147,23 @@ func scnC13Ingest(state string) scenarioFn {
 		if t.Choose(2, "cancel.mode") == 1 {
 			step = t.Choose(40, "cancel.step")
 		}
+		if state == "eof" {
+			// the writer goes away; the ingester sees the end of the stream (a taped number of
+			// scheduler steps or up to two simulated seconds later the context is cancelled)
+			leaving := w
+			rc.Sim.Spawn("world.writer-leaves", func() { simrt.Point("world.close"); leaving.Close() })
+			w = nil
+		}
 		reached := runToStepOrState(rc, func() bool {
 			if state == "open" {
 				return pipe.BlockedOpen
 			}
+			if state == "eof" {
+				return res.v
+			}
 			return pipe.BlockedRead && calls.n == pre
 		}, step, 2000)
-		inState := (state == "open" && pipe.BlockedOpen) || (state == "read" && pipe.BlockedRead)
+		inState := (state == "open" && pipe.BlockedOpen) || (state == "read" && pipe.BlockedRead) || (state == "eof" && pipe.Writers() == 0)
 		if inState {
 			rc.Sim.Count("cancel_in_state_" + state)
 		}
@@ -166,7 +177,7 @@ func scnC13Ingest(state string) scenarioFn {
 		rc.R.Sample = map[string]any{"worker": "namedpipe.Ingest", "state": state, "lines_before": pre, "cancel_at_step": step, "in_state_at_cancel": inState, "returned": res.v, "err": fmt.Sprint(res.err)}
 		if !ok {
 			rc.Fail("C13", "no-return-"+state, "namedpipe.Ingest did not return after cancellation (%s) while %s: %v", why,
-				map[string]string{"open": "waiting for a writer to open the pipe", "read": "blocked reading an idle pipe"}[state], rc.Sim.Live())
+				map[string]string{"open": "waiting for a writer to open the pipe", "read": "blocked reading an idle pipe", "eof": "no writer is connected any more (end of stream seen)"}[state], rc.Sim.Live())
 			return
 		}
 		_ = callsAtCancel
@@ -368,8 +379,10 @@ func scnC13Read(rc *RunCtx) {
 		audits <- l + "\n"
 	}
 	pipelinePolicy(rc)
-	mode := t.Choose(4, "state")
+	mode := t.Choose(5, "state")
 	step := -1
+	stopFeed := &doneFlag{}
+	rc.Cleanup(func() { stopFeed.set(nil) })
 	if mode == 3 {
 		// a record group of the bound session that lacks its terminating record: only the
 		// periodic maintenance (2 s time-out, 500 ms tick) releases it
@@ -399,6 +412,18 @@ func scnC13Read(rc *RunCtx) {
 	case 1: // lines still queued
 		step = t.Choose(25, "cancel.step")
 		runToStepOrState(rc, func() bool { return false }, step, 0)
+	case 4: // a producer that is not part of the cancelled group keeps the queue topped up
+		runToStepOrState(rc, func() bool { return len(audits) == 0 && loginSent.v }, -1, 3000)
+		rc.Sim.Spawn("world.feeder", func() {
+			for !stopFeed.v {
+				l := k.UserMsg("USER_START", "610", pid, 1000, true, 0).Lines[0] + "\n"
+				c0, c1 := simrt.Send(audits).V(l), simrt.Recv(time.After(200*time.Millisecond))
+				simrt.Select("world.feeder", false, c0, c1)
+			}
+		})
+		step = t.Choose(300, "cancel.step4")
+		runToStepOrState(rc, func() bool { return false }, step, 0)
+		rc.Sim.Count("cancel_with_live_producer")
 	default: // mid-push: somewhere while processing
 		step = 10 + t.Choose(200, "cancel.step2")
 		runToStepOrState(rc, func() bool { return false }, step, 0)
@@ -412,13 +437,14 @@ func scnC13Read(rc *RunCtx) {
 	ok, why := settleAfterCancel(rc, func() bool { return res.v }, time.Second)
 	rc.CaseKey(mode, queued, step)
 	rc.R.NonTrivial = true
-	rc.R.Sample = map[string]any{"worker": "auditd.Read", "state": []string{"idle", "lines-queued", "mid-push", "maintenance-flush"}[mode], "lines": len(lines), "queued_at_cancel": qAtCancel, "cancel_at_step": step, "returned": res.v, "err": fmt.Sprint(res.err)}
+	rc.R.Sample = map[string]any{"worker": "auditd.Read", "state": []string{"idle", "lines-queued", "mid-push", "maintenance-flush", "live-producer"}[mode], "lines": len(lines), "queued_at_cancel": qAtCancel, "cancel_at_step": step, "returned": res.v, "err": fmt.Sprint(res.err)}
 	if !ok {
 		rc.Fail("C13", "no-return-read", "auditd.Read did not return after cancellation (%s): %v", why, rc.Sim.Live())
 		return
 	}
 	evAtReturn := len(rec.Events)
 	qAtReturn := len(audits)
+	stopFeed.set(nil)
 	// more input available: a record for the bound session and a login nobody should take
 	for _, l := range GenAction(t, k, "610", pid, 1000).Lines {
 		select {
